@@ -12,6 +12,7 @@ from simlib import Rng, mkspec, random_sched
 PROPERTY = "C19"
 LEVEL = "fault_enumeration"
 BUDGET = {"quick": 80, "thorough": 1500}
+MIN_CASES = {"quick": 800}  # see checklib.Check: quick goes on to this many cases on a loaded machine (up to 3x its budget)
 RULE = ("cases: 1-3 named files (dkvp/csv/json; plain, .gz, .z; modes 0600/0644/0755/0640; empty files; sub-directories) x "
         "-I chain (cat, put, head, sort, stats1, nothing, tac, filter). Per case the mutating file-system operations of a "
         "pilot run (temp create, each write(2) to the temp, close, rename, chmod, remove) are ENUMERATED and the process "
